@@ -233,4 +233,65 @@ example : localPub [0, 1, 2] 5 1 ⟨none, some true, 7⟩
     = [(1, ⟨none, some true, 7⟩), (0, ⟨some 1, some false, 7⟩), (2, ⟨some 1, some false, 7⟩)] := by decide
 example : localPub [0, 1, 2] 5 1 ⟨some 0, some true, 7⟩ = [(1, ⟨some 0, some true, 7⟩)] := by decide
 
+/-! ### RPC round trips across the sides (request -> handler -> reply) -/
+
+/-- the `fwd` default of a message type, read from messages.py -/
+def msgFwdDefault (t : String) : Bool :=
+  match Gen.msgFwdDefaults.find? (fun e => e.1 = t) with
+  | some e => e.2
+  | none   => false
+
+/-- does `RPCResultMessage(rpc_req=..)` take the forward flag over from the request (messages.py) -/
+def rpcCopiesFwd : Bool := Gen.rpcResCopied.contains "fwd"
+
+theorem deliveries_append (a b : List (Nat × Msg)) (t : Nat) :
+    deliveries (a ++ b) t = deliveries a t + deliveries b t := by
+  simp [deliveries, List.filter_append]
+
+/-- a reply built with the type default `fwd = True` and no copied flag: whatever markers the request
+    carried when it reached the handler, every connected side sees as many replies as the handler's
+    side saw requests -/
+theorem rpc_general (sides : List Nat) (hn : sides.Nodup) (fuel : Nat) (r h : Nat) (hh : h ∈ sides)
+    (req : Msg) (t : Nat) (ht : t ∈ sides) :
+    deliveries (rpcRoundTrip sides (fuel + 2) true false r h req) t
+      = deliveries (localPub sides (fuel + 2) r req) h := by
+  unfold rpcRoundTrip
+  have key : ∀ (l : List (Nat × Msg)),
+      deliveries (l.flatMap (fun d => localPub sides (fuel + 2) h (rpcReply true false d.2))) t = l.length := by
+    intro l
+    induction l with
+    | nil => simp [deliveries]
+    | cons d ds ih =>
+      rw [List.flatMap_cons, deliveries_append, ih]
+      have hc := C16 sides hn fuel h hh (rpcReply true false d.2)
+      have hone : deliveries (localPub sides (fuel + 2) h (rpcReply true false d.2)) t = 1 := by
+        by_cases e : t = h
+        · subst e; exact hc.1
+        · exact hc.2.1 ⟨by simp [rpcReply], Or.inl (by simp [rpcReply])⟩ t ht e
+      rw [hone, List.length_cons]; omega
+  rw [key]
+  rfl
+
+/-- **RPC replies**: a request published with the defaults of its message type on any side `r`, handled
+    on any side `h` (the same or another one): the reply the handler publishes reaches the subscribers of
+    every connected side - the requester's among them - exactly once -/
+theorem C16_rpc (sides : List Nat) (hn : sides.Nodup) (fuel : Nat) (r h : Nat) (hr : r ∈ sides) (hh : h ∈ sides)
+    (uid : Nat) (t : Nat) (ht : t ∈ sides) :
+    deliveries (rpcRoundTrip sides (fuel + 2) (msgFwdDefault "rpc_res") rpcCopiesFwd r h
+      { origin := none, fwd := some (msgFwdDefault "rpc_req"), body := uid }) t = 1 := by
+  have e1 : msgFwdDefault "rpc_req" = true := by decide
+  have e2 : msgFwdDefault "rpc_res" = true := by decide
+  have e3 : rpcCopiesFwd = false := by decide
+  rw [e1, e2, e3, rpc_general sides hn fuel r h hh _ t ht]
+  have hc := C16 sides hn fuel r hr { origin := none, fwd := some true, body := uid }
+  by_cases e : h = r
+  · subst e; exact hc.1
+  · exact hc.2.1 ⟨rfl, Or.inl rfl⟩ h hh e
+
+/-- not vacuous, and the copied flag matters: with a reply that takes the flag over from the request as
+    received, the requester on another side never sees the reply -/
+example : deliveries (rpcRoundTrip [0, 1, 2] 2 true false 0 1 { origin := none, fwd := some true, body := 7 }) 0 = 1
+    ∧ deliveries (rpcRoundTrip [0, 1, 2] 2 true true 0 1 { origin := none, fwd := some true, body := 7 }) 0 = 0 := by
+  decide
+
 end RPVerif.C16
